@@ -594,6 +594,95 @@ def dec_exponent(v):
     return False
 
 
+MALFORMED = {
+    'int': ['5', '-5', '+5', '05', '-0', ' 5 ', '\n7\t', '5 ', '', ' ', 'abc', '5.0', '5.', '1e3', '--5', '1 2', '1_0', '0x10', '128', '-129',
+            '127', '-128', '65535', '65536', '99999999999999999999', '-99999999999999999999', '301', '300', '12a', '+', '-'],
+    'dec': ['5', '-5', '+5', '05', '5.', '.5', '5.0', '-0.00', ' 5.5 ', '1e3', '1E+3', '1E-7', '', '.', 'abc', '5,0', '1.2.3', '--5',
+            '0.5', '0.49', '1000', '1000.0', '1000.01', '99.999', '123.4', '12.34', '1234', '+.5', '-.', '00012.500'],
+    'bool': ['true', 'false', '1', '0', ' true ', 'TRUE', 'True', 'yes', '', 'maybe', '2', 'false ', '\n0'],
+    'str': ['', 'a', 'ab', 'abc', 'abcd', ' ab', 'ab ', 'A', 'zz', '12', 'a b', '\tab\n', 'ünï', '中文'],
+    'uri': ['a', 'abc', 'abcdef', 'http://a/b', ' abc', 'abc ', 'urn:x:y', 'a/b?c=d'],
+}
+
+
+def corr_leaf_stream(check, tier):
+    """the malformed stream: literals around and outside the lexical spaces, as element content
+    and as attribute values, through the same two correspondences (lxml / the real soft
+    validator against the models)"""
+    from lxml import etree
+    import universe as U0
+
+    def leaf(base, **fa):
+        return ['leaf', {'base': base, 'facets': fa}]
+
+    def fld(name, ty, kind='elem', mx=None, nillable=True):
+        return {'name': name, 'ty': ty, 'min': 0, 'max': (1 if kind == 'attr' else mx), 'nillable': nillable, 'kind': kind,
+                'choice': None, 'default': None}
+    members = [('i', leaf('integer'), 'int'), ('b', leaf('byte'), 'int'), ('u', leaf('unsignedShort', le=['int', 300]), 'int'),
+               ('d', leaf('decimal'), 'dec'), ('e', leaf('decimal', ge=['dec', '0.5'], le=['dec', '1E+3']), 'dec'),
+               ('g', leaf('decimal', total_digits=4, fraction_digits=2), 'dec'),
+               ('t', leaf('boolean'), 'bool'), ('s', leaf('string', min_len=1, max_len=3), 'str'), ('p', leaf('string', pattern='[a-z]+'), 'str'),
+               ('a', leaf('anyURI', max_len=5), 'uri')]
+    desc = {'tns': 'urn:tns', 'classes': [{'ns': 'urn:t', 'name': 'K0', 'parent': None,
+                                           'fields': [fld(n, t) for n, t, _ in members] + [fld('x' + n, t, 'attr') for n, t, _ in members]}]}
+    W = World(check.rng, desc, 'xml')
+    if W.compile_error:
+        check.mismatch('leaf_stream', 'the fixed universe of the literal stream does not compile: ' + W.compile_error)
+        return
+    R = G.Renderer(desc, W.classes, W.app_s.out_protocol)
+    uterm = R.universe(W.svc)
+    notes = []
+    sterm = parse_schema(W.schema_docs, notes)
+    texts = list(notes)
+    xsd_cases, soft_cases = [], []
+    for name, ty, pool in members:
+        for lit in MALFORMED[pool]:
+            for as_attr in (False, True):
+                x = etree.Element('{urn:tns}x')
+                if as_attr:
+                    x.set('x' + name, lit)
+                else:
+                    etree.SubElement(x, '{urn:t}' + name).text = lit
+                m, body = wrap('xml', 'urn:tns', 'm0', x)
+                tree = etree.fromstring(body)
+                texts.extend(doc_texts(tree))
+                lv, _ = W.lxml_ok(tree)
+                sv = verdict(W.app_s, body)
+                xt = U0.g_xml(tree)
+                what = '%s %s=%r' % ('attribute' if as_attr else 'element', name, lit)
+                xsd_cases.append(('(%s, %s)' % (xt, gbool(lv)), 'literal stream %s -> lxml %s' % (what, lv)))
+                soft_cases.append(('(1%%nat, %s, %s)' % (xt, g_verdict(sv)), 'literal stream %s -> soft %r' % (what, sv)))
+                check.count(('leaf', name, lit, as_attr))
+    imports = (IMPORTS + 'Definition UU : univ := %s.\nDefinition SS : schema := %s.\n' % (uterm, sterm) + tables(R, texts, W.app_s.in_protocol))
+    lib.correspond(check, 'xsd_literals', imports, 'xnode * bool',
+                   '(fun c => Bool.eqb (valid_doc (pat_of PT) (olex_of OT) %d SS (fst c)) (snd c))' % FUEL, xsd_cases)
+    lib.correspond(check, 'soft_literals', imports, 'nat * xnode * out unit',
+                   '(fun c => let \'(mc, t, o) := c in out_unit_eqb (soft UU (ord_of RT) %d (DRef mc) true t) o)' % FUEL, soft_cases,
+                   show='(fun c : nat * xnode * out unit => let \'(mc, t, o) := c in soft UU (ord_of RT) %d (DRef mc) true t)' % FUEL)
+
+
+def corr_decimal_text(check, tier):
+    """Dec.v against decimal.Decimal: str(), format(d, 'f'), and what xs:decimal / Decimal() read back"""
+    rng = check.rng
+    cases = []
+    pool = list(G.DEC_POOL) + ['0E-7', '0E+3', '-0', '1E+100', '123456789E-20', '5E-6', '5E-7', '100E-2', '-12E1']
+    for _ in range(60 if tier == 'quick' else 600):
+        sign = rng.choice(['', '-'])
+        coeff = rng.choice([0, 1, 5, 10, 12, 100, 123, 1200, 99999, rng.randrange(10 ** rng.randint(1, 12))])
+        pool.append('%s%dE%+d' % (sign, coeff, rng.randint(-12, 8)))
+    for lit in pool:
+        d = D(lit)
+        plain = format(d, 'f')
+        back = D(plain)
+        cases.append(('(%s, %s, %s, %s)' % (G.g_dec(d), gtext(str(d)), gtext(plain), G.g_dec(back)),
+                      'Decimal(%r): str %r, format f %r' % (lit, str(d), plain)))
+        check.count(('dec', lit))
+    lib.correspond(check, 'decimal_text', IMPORTS + 'From SpyneV Require Import C06.Dec.\n', 'decimal * text * text * decimal',
+                   '(fun c => let \'(d, s, p, b) := c in text_eqb (dec_str d) s && text_eqb (dec_plain d) p '
+                   '&& match py_decimal p with Some b\' => dec_eqb b\' b && (d_exp b\' =? d_exp b) | None => false end '
+                   '&& match xs_decimal p with Some b\' => dec_eqb b\' d | None => false end)', cases)
+
+
 def compile_shape(msg):
     m = re.search(r"Element '\{[^}]*\}(\w+)'.*?atomic type '([\w:]+)'", msg)
     if m:
@@ -854,8 +943,48 @@ def oracle_emitted_tagged(check, W, cid, v, key):
 
 def run(check):
     tier = check.tier
-    check.rule = ''
-    check.trusted = list(lib.COMMON_TRUSTED)
+    check.rule = ('generated type universes (1-5 classes over 1-2 namespaces plus the message classes of one method per class; '
+                  'inheritance, XmlAttribute members, Array classes, max_occurs > 1, choice groups, defaults; leaf classes drawn from '
+                  '22 primitive classes with gt/ge/lt/le, values, min_len/max_len, pattern, total/fraction_digits customisations) '
+                  'rendered as real Spyne classes and as a Gallina universe; per universe: conformant values written by the real '
+                  'client and server paths, and documents in declared order whose member counts, nil flags and leaf values are drawn '
+                  'on and around every declared boundary; a fixed corpus (witnesses of repaired defects and known findings, one universe '
+                  'per (class, facet), a stream of malformed literals as element content and attribute values). A case is distinct by '
+                  '(operation, protocol, document or value)')
+    check.trusted = list(lib.COMMON_TRUSTED) + [
+        'coq/C06/Xsd.v: the XSD validity relation for the published subset, written from XML Schema 1.0 parts 1 and 2 '
+        '(validated on every run against libxml2 through lxml on ~700 (schema, document) pairs, not verified)',
+        'harness/c06.py parse_schema: the fail-closed reader of the real schema documents into the Gallina syntax tree',
+        'the (namespace, name) of published simple types, Array classes and their item elements, and max_str_len, are read '
+        'from the real classes (ComplexModelMeta naming is observed, not modelled); the schema correspondence compares them '
+        'with what XmlSchema writes',
+        'harness/c06gen.py parse_re: the regular-expression fragment on which Python re and XSD patterns denote the same language',
+        'harness/c06.py xs_key / spyne_key: the reference lexical mappings and the observed Spyne readers of the delegated leaf '
+        'classes (Double, Float, Date, Time, DateTime, Duration, ByteArray, Uuid), tabulated per run for the section variables olex / ord',
+        'lxml.etree.XMLSchema (libxml2) as the judge of "compiles" and of validity in the direct oracle',
+    ]
+    check.assumptions = [
+        'C06_emitted_valid_partial / C06_verdicts_agree assume resolves_b (schema_of U tns) U = true: that the published schema '
+        'defines every name it refers to is a decidable check evaluated for every generated universe (correspondence hyp_universe), '
+        'proved sound (C06_closure_check_sound), not proved for all universes',
+        'patterns_known: the pattern table maps each pattern text of the universe to the regular expression the harness parsed from it',
+        'constants_ok / opq_ok (delegated leaf classes only): the text Spyne writes for a Double, Float, Date, Time, DateTime, '
+        'Duration, ByteArray or Uuid value is an XSD literal of the same value, is read back by Spyne as that value, and has no '
+        'blanks at its ends (C08 is about these codecs); integers, strings, booleans and decimal.Decimal need no hypothesis',
+        'wire_ok: a Decimal on the wire is one str() writes without exponent (exponent <= 0, adjusted exponent >= -6); outside this '
+        'region the statement is refuted (C06_decimal_wire_refuted) and listed as known finding C06|decimal|exponent-notation',
+        'vconf / ddoc exclude None standing for a class with a required XmlAttribute (C06_nil_required_refuted, known finding '
+        'C06|nil|required-attribute) and universes whose choice groups are declared in more than one run (wf_univ; known finding '
+        'C06|choice|group-in-two-runs)',
+        'verdict agreement is proved for leaf contents in la_canon (the decimal text of any integer without total_digits within '
+        'max_str_len, any text of a string member, the xs:boolean literals); for Decimal and the delegated classes only the '
+        'structural half is proved (C06_verdicts_agree_structure) and the leaf verdicts are compared by the oracle',
+        'constraints only one validator implements are outside the agreement: total_digits / fraction_digits / number patterns / '
+        'default on an empty element / choice exclusivity / emptiness of a nilled element (schema only), max_str_len (soft only); '
+        'lexical leniency of the Python readers (C05 findings) is not C06\'s subject: generated documents carry canonical literals',
+        'polymorphic output and xsi:type, sub_name / sub_ns, XmlData, AnyXml / AnyDict / File, headers and faults are outside the '
+        'modelled universe; "the schema compiles" is observed with lxml, not proved',
+    ]
     check.regen(['numtypes', 'xsdemit'])
     check.check_sources()
     if THEOREMS:
@@ -866,6 +995,8 @@ def run(check):
             check.mismatch('build', log[-1500:])
     oracle_corpus(check, tier)
     oracle_facets(check, tier)
+    corr_leaf_stream(check, tier)
+    corr_decimal_text(check, tier)
     for ui in range(8 if tier == 'quick' else 60):
         corr_universe(check, ui, tier)
     for ui in range(12 if tier == 'quick' else 90):
